@@ -272,8 +272,12 @@ VisAsImpl(q, k, p) ==
   ELSE Obj(q, 1).vd > 1 /\ Dist2(PosOf(Obj(q, 2), p), Obj(q, 1).pos) <= Sq(Obj(q, 1).vd - 1)
 TrigVisbuf(q, k) == VisApplies(q, k)
 
+\* bound extraction refuses a program ("absolute value cannot be negative") although it is
+\* satisfiable: through a != read as <=, or through a condition that is not a requirement
+RefuseNoneq(q) == \E i \in 1..Len(Reqs(q)) : Hard(Reqs(q)[i]) /\ Rel!HasNe(Reqs(q)[i]) /\ Rel!AsImplRaises(Reqs(q)[i])
+RefuseNonhard(q) == \E i \in 1..Len(Reqs(q)) : ~Hard(Reqs(q)[i]) /\ Rel!AsImplRaises(Reqs(q)[i])
 TrigT == [q \in 1..NP |-> [noneq |-> TrigNoneq(q), nonhard |-> TrigNonhard(q), unnorm |-> TrigUnnorm(q),
-                            touch |-> TrigTouch(q)]]
+                            touch |-> TrigTouch(q), refuseNoneq |-> RefuseNoneq(q), refuseNonhard |-> RefuseNonhard(q)]]
 
 PrunedIdeal(q, k, p) ==
   /\ InBase(q, k, p) /\ ContIdeal(q, k, p)
@@ -337,6 +341,8 @@ EmitObject ==
      PrintT(ToJson([pid |-> Progs[pid].id, oid |-> oid, xs |-> XsT[pid][oid], ys |-> YsT[pid][oid],
                     zs |-> ZsT[pid][oid], rows |-> acc,
                     trig |-> [noneq |-> TrigT[pid].noneq, nonhard |-> TrigT[pid].nonhard,
-                              unnorm |-> TrigT[pid].unnorm, touch |-> TrigT[pid].touch, offset |-> TrigOffset(pid, oid),
+                              unnorm |-> TrigT[pid].unnorm, touch |-> TrigT[pid].touch,
+                              refuseNoneq |-> TrigT[pid].refuseNoneq, refuseNonhard |-> TrigT[pid].refuseNonhard,
+                              offset |-> TrigOffset(pid, oid),
                               visbuf |-> TrigVisbuf(pid, oid)]]))
 =============================================================================
